@@ -433,8 +433,9 @@ Theorem group_after_soa : forall f x1 r x2, r_type r = tSOA ->
 Proof. exact XfrGroup.group_after_soa. Qed.
 Print Assumptions group_after_soa.
 
-(* merging neither loses nor invents a record *)
-Theorem group_keeps_records : forall f x t,
+(* merging neither loses nor invents a record (records of the singleton types NXT, DNAME, NSEC, CNAME
+   replace each other when merged: XfrGroup.mergeable excludes them) *)
+Theorem group_keeps_records : forall f x t, Forall XfrGroup.mergeable x ->
   In t (XfrGroup.tups (group f x)) <-> In t (map XfrGroup.tup x).
 Proof. exact XfrGroup.group_keeps_records. Qed.
 Print Assumptions group_keeps_records.
